@@ -103,6 +103,11 @@ Inductive op :=
 | Create (trader now : Z)
 | Close (trader now : Z).
 
+Definition op_trader (o : op) : Z :=
+  match o with Trade t _ _ _ _ _ _ _ => t | Create t _ => t | Close t _ => t end.
+Definition op_now (o : op) : Z :=
+  match o with Trade _ n _ _ _ _ _ _ => n | Create _ n => n | Close _ n => n end.
+
 (* error classes (Corr.v documents the mapping from program error codes):
    1 callback parameters, 2 invalid trade event, 3 participant account missing/invalid,
    4 rejected by the account constraints (authority), 5 zero trader address,
@@ -178,3 +183,15 @@ Definition init_ok (now start end_ thr dur cap win : Z) : bool :=
   (now <? start) && (start <? end_) && (0 <? dur) && (0 <? thr) && (0 <? cap) && (dur <=? cap) && (0 <? win).
 Definition init_state (start end_ thr dur cap : Z) (only_inc : bool) (win : Z) : state :=
   mkstate (mkcomp start end_ [] thr dur cap None only_inc win) [].
+
+(* initialize_competition: the `require!`s in source order; 0 = accepted, else the class of
+   the first failing check (13 InvalidTimeRange, 14 InvalidTimeExtension,
+   15 InvalidVolumeThreshold, 16 InvalidMaxExtension, 18 InvalidVolumeMergeWindow) *)
+Definition init_rc (now start end_ thr dur cap win : Z) : Z :=
+  if negb (now <? start) then 13 else
+  if negb (start <? end_) then 13 else
+  if negb (0 <? dur) then 14 else
+  if negb (0 <? thr) then 15 else
+  if negb (0 <? cap) then 16 else
+  if negb (dur <=? cap) then 16 else
+  if negb (0 <? win) then 18 else 0.
